@@ -159,6 +159,11 @@ def run_unit(task):
         rec = {"harness": hname, "params": params, "clause": v.clause, "model": v.model}
         try:
             ok, cinfo, clauses = replay_record(rec)
+            for alt in getattr(v, "alternatives", []):
+                if ok:
+                    break
+                rec = {"harness": hname, "params": params, "clause": v.clause, "model": alt}
+                ok, cinfo, clauses = replay_record(rec)
         except BaseException as e:
             res["unconfirmed"].append({"clause": v.clause, "model": v.model, "why": f"replay crashed: {e!r}"})
             continue
